@@ -204,6 +204,22 @@ def run_sweep(ck: common.Check, prop: str, tier: str):
                 T.push_ac_status(rig, dataclasses.replace(st, mode=mode))
                 t = inst.m["tstat"]
                 T.push_timer(rig, t.AcTimerStatusData(spec.number, t.AcTimerState(False, 6 + ci % 5, 15), t.AcTimerState(ci % 2 == 0, 22, 45)))
+                # zone reports change over time: the opposite capability flags first (turbo support, sensor), then -
+                # for every other configuration - the original report again; what a zone accepts must follow the
+                # latest report only
+                zst = inst.m["zstat"]
+                for z in list(ac.zones):
+                    orig = inst.zone_status[z.zone_id]
+                    if gen == 4:
+                        flipped = dataclasses.replace(orig, supports_turbo=not orig.supports_turbo, has_sensor=not orig.has_sensor,
+                                                      temperature=None if orig.has_sensor else 21.0, set_point=None if orig.has_sensor else 22)
+                    else:
+                        flipped = dataclasses.replace(orig, has_sensor=not orig.has_sensor, temperature=None if orig.has_sensor else 21.0,
+                                                      set_point=None if orig.set_point is not None else 22.5)
+                    T.push_zone_status(rig, flipped)
+                    if (ci + z.zone_id) % 2 == 0:
+                        T.push_zone_status(rig, orig)
+                    dist[f"at{gen}_zone_report_history"] += 1
                 ac_calls, zone_calls = call_space(gen, rng, tier, temps if ci < 3 else temps[::7])
                 jobs = [("ac", ac, c, a) for c, a in ac_calls]
                 for z in ac.zones:
@@ -286,10 +302,73 @@ def run_sweep(ck: common.Check, prop: str, tier: str):
                                 ck.violation("public call departs from the property",
                                              dict(replay, kind="call", trigger={"class": f"call{replay['call']}"},
                                                   failure=f"frame {fr[8].hex()} reads {norm(rd)}, the call means {norm(want)}"))
+                if ci < 6:
+                    link_down_calls(ck, gen, rig, ac, reported, dist, {"gen": gen, "ability": {"modes": modes, "fans": fans, "limits": lims, "ac_number": acn}})
             finally:
                 rig.close()
     ck.extra["input_distribution"] = dict(sorted(dist.items()))
     ck.extra["correspondence_disagreements"] = corr_bad
+
+
+def link_down_calls(ck, gen, rig, ac, reported, dist, base_replay) -> None:
+    """Accepted calls issued while the link is down leave when it is back - after the client's own refresh requests
+    have been prepared - and must still mean what was asked (C04) in exactly one frame each (C11)."""
+    cand = [("ac", ac, 1, [1]), ("ac", ac, 1, [2]), ("ac", ac, 4, [22.0]), ("ac", ac, 2, [2, 0])]
+    for z in list(ac.zones)[:2]:
+        cand += [("zone", z, 11, [1]), ("zone", z, 13, [40]), ("zone", z, 12, [23.0])]
+    jobs = []
+    for kind, tgt, call, args in cand:
+        it = intent(gen, rig, kind, tgt, call, args)
+        if it[0] in ("ac", "zone"):
+            jobs.append((kind, tgt, call, args, it))
+    if not jobs:
+        return
+    rig.net.accept = False
+    cur = rig.net.current()
+    if cur is not None:
+        cur.transport.peer_reset()
+    rig.pump()
+    n_rx = len(rig.console.received)
+    for kind, tgt, call, args, it in jobs:
+        coro = (tgt.set_power(T.POWER_CTL[args[0]]) if call == 1 else tgt.set_mode(T.MODES[args[0]], power_on=bool(args[1])) if call == 2 else
+                tgt.set_target_temperature(args[0]) if call in (4, 12) else tgt.set_power(T.ZPOWER[args[0]]) if call == 11 else
+                tgt.set_damper_percentage(args[0]))
+        rig.start(coro)
+    rig.net.accept = True
+    rig.advance(3 * 1024)
+    ctl = [f for f in rig.console.received[n_rx:]
+           if (gen == 4 and f[5] in (0x2A, 0x2C)) or (gen == 5 and f[5] == 0xC0 and f[8][:1] in (b"\x20", b"\x22"))]
+    ck.count()
+    dist[f"at{gen}_link_down_batches"] += 1
+    replay = dict(base_replay, kind="call-link-down", calls=[[k, c, [repr(a) for a in ar]] for k, _, c, ar, _ in jobs])
+    if len(ctl) != len(jobs):
+        reported[(gen, "link-down", "count")] += 1
+        if reported[(gen, "link-down", "count")] <= 2:
+            ck.violation("public call departs from the property",
+                         dict(replay, trigger={"class": "call-link-down"},
+                              failure=f"{len(jobs)} accepted calls made while the link was down, {len(ctl)} control frames arrived after the reconnection: "
+                                      f"{[f[8].hex() for f in ctl]}"))
+        return
+    rqs = [spec_request(gen, it[0], fr) for (_, _, _, _, it), fr in zip(jobs, ctl)]
+    rds = common.run_model([rq[0] for rq in rqs if rq is not None]) if any(rq is not None for rq in rqs) else []
+    rds = iter(rds)
+    for (kind, tgt, call, args, it), fr, rq in zip(jobs, ctl, rqs):
+        bad = None
+        if rq is None:
+            bad = f"frame {fr[8].hex()} (type {fr[5]:#x}) is not a well-formed request for one {it[0]}"
+        else:
+            rd = spec_parse(it[0], next(rds), rq[1])
+            want = dict(it[1], pad=0)
+            if (fr[2], fr[3]) != (0x80, 0xB0) or not fr[7]:
+                bad = f"addressing/check: to={fr[2]:#x} from={fr[3]:#x} crc_ok={fr[7]}"
+            elif norm(rd) != norm(want):
+                bad = f"frame {fr[8].hex()} reads {norm(rd)}, the call means {norm(want)}"
+        if bad:
+            reported[(gen, "link-down", call)] += 1
+            if reported[(gen, "link-down", call)] <= 2:
+                ck.violation("public call departs from the property",
+                             dict(replay, trigger={"class": f"call{call}-link-down"}, call=call, args=[repr(a) for a in args],
+                                  failure="issued while the link was down, transmitted after the reconnection: " + bad))
 
 
 RULE_CALLS = ("per generation 20-60 ability reports (all-on, all-off, each single mode/fan bit, random bitmaps; four limit "
